@@ -104,12 +104,12 @@ Definition disjoint (h1 h2 : Z * Z * Z) : bool :=
 Definition mutex_ok (c : case) : bool :=
   let hs := holds_of c in forallb (fun h1 => forallb (disjoint h1) hs) hs.
 
-(** a thread is a persistent waiter over [from, to] if it called Lock by [from], has not
-    returned before [from], and is not cancelled before [to] *)
+(** a thread is a persistent waiter over [from, to] if it called Lock by [from] + 2 s, has
+    not returned before [from], and is neither cancelled nor killed before [to] *)
 Definition persistent_waiter (c : case) (from to : Z) (o : ob) : bool :=
   match first_time (cevents c) 0 (otid o) with
   | Some st =>
-      (st <=? from) &&
+      (st <=? from + 2000000000) &&
       ((oout o =? -1) || (from <? otime o)) &&
       match first_time (cevents c) 3 (otid o) with Some tc => to + 1000000000 <=? tc | None => true end &&
       match first_time (cevents c) 2 (pid_of (cevents c) (otid o)) with Some tk => to <? tk | None => true end
